@@ -1312,6 +1312,14 @@ func symTransc2(name string, f func(float64, float64) float64) externalFn {
 		if !xs && !ys {
 			return f(a[0].(float64), a[1].(float64))
 		}
+		for _, v := range a[:2] {
+			if nf, ok := nonFinite(v); ok {
+				if math.IsNaN(nf) {
+					return math.NaN()
+				}
+				panic(unsupported{"math." + name + " with an infinite operand in the real model"})
+			}
+		}
 		pc := fr.i.pc
 		fn := "tr_" + name
 		pc.declareUF(fn, 2)
